@@ -57,7 +57,7 @@ ENGINES["syncobj"] = {
 
 ENGINES["client"] = {
     "pkg": "./harness/client",
-    "instr": ["tun/client:2", "spec/tun:1", "util/acceptor:1"],
+    "instr": ["tun/client:2", "spec/tun:1", "util/acceptor:1", "rtt:2"],
     "osredirect": "tun/client/config.go",
     "inject": {"tun/client/zz_verif_export.go": "inject/client/zz_verif_export.go", "tun/client/ui/build/index.html": "inject/client/index.html",
                "util/pipe/pipe_unix.go": "inject/pipe/pipe_unix.go"},
@@ -131,6 +131,8 @@ PROPS.update({
 PROPS.update({
     "C45": {"engine": "client", "level": "fault_enumeration", "quick": 400, "thorough": 20000},
     "C44": {"engine": "client", "level": "exploration", "quick": 640, "thorough": 40000},
+    "C43": {"engine": "client", "level": "exploration", "quick": 1600, "thorough": 80000},
+    "C50": {"engine": "client", "level": "exploration", "quick": 1600, "thorough": 80000},
 })
 
 PROPS.update({
@@ -153,7 +155,7 @@ PROPS.update({
 RULES = {
     "gw": "one evaluation = one cell of {HTTP, raw TCP, CONNECT} x 11 tunnel outcomes (not found, client not connected, no direct path, timeout error, deadline, other error, connection that never answers, success, undecodable / no-direct / error status frame) x error wrapped 0-2 times x 3 host spellings; the seed is the cell index; distinct = distinct cells",
     "ctl": "one evaluation = one seeded world (1-3 tunnel servers on a real chord ring, 2-5 simulated clients of different kinds, a seeded operation list) executed under a seeded schedule; distinct = distinct (task, yield site) sequences; non-trivial = the world booted and the scenario ran to its end",
-    "client": "one evaluation = one seeded client configuration (certificate, key, tunnels) saved 1-3 times with changed content on the simulated disk; every operation boundary of every save is a crash image that is loaded with the real NewConfig; distinct = distinct configurations",
+    "client": "C45: one evaluation = one seeded client configuration (certificate, key, tunnels) saved 1-3 times with changed content on the simulated disk; every operation boundary of every save is a crash image that is loaded with the real NewConfig; distinct = distinct configurations. C43/C44/C50: one evaluation = one seeded plan (tunnel lists and changes / registered sets and RPC faults / measurement histories) executed by the real tun/client.Client under a seeded schedule; distinct = distinct (plan, (task, yield site) sequence); non-trivial = a link overlapped a configuration change (C44) / a tunnel needed a hostname (C43) / more than one gateway was returned (C50)",
     "syncobj": "one evaluation = one seeded plan (operations per task, chunk sizes, delays, close/cancel/deadline instants, scripted outcomes) executed on the real object under a seeded schedule; distinct = distinct (task, yield site) sequences (for the enumerated checks C15/C38: distinct cells); non-trivial by the per-check rule in the harness (more than one successful transition / payload larger than the buffer / more than one task ...)",
     "store": "one evaluation = one seeded history of KV operations applied to one backend (memory / append-only log on the simulated disk / SQLite through the recording VFS) inside a simulated run, compared with the reference model operation by operation; "
              "non-trivial = the history drove the model through more than 3 distinct states; distinct = distinct histories (hash of the plan) - for concurrent runs distinct (task, yield site) sequences",
